@@ -5,6 +5,8 @@ Property theorems only (helper lemmas live in Lemmas/).
 import VaxisModel.Model.ImageFit
 import VaxisModel.Spec.Images
 import VaxisModel.Lemmas.ImageFit
+import VaxisModel.Model.Placements
+import VaxisModel.Lemmas.Placements
 
 namespace VaxisModel.Props.C20
 open VaxisModel.Model.ImageFit VaxisModel.Spec.Images VaxisModel.Gen.ImageConsts VaxisModel.Lemmas.ImageFit
@@ -118,5 +120,61 @@ theorem no_panic : NoPanicStatement genCfg := by
   rw [source_shape]
   intro F wPix hPix w h cellW cellH hcw hch
   exact ⟨_, resizeDimsWith_std F wPix hPix w h cellW cellH hcw hch⟩
+
+/-! ## Placement bookkeeping -/
+
+section placements
+open VaxisModel.Model.Placements VaxisModel.Lemmas.Placements
+
+/-- `samePlacement` compares all five of (id, col, row, w, h) (regenerated fact) … -/
+theorem samePlacement_fields : samePlacementFields = [.id, .col, .row, .w, .h] := by decide
+
+/-- … hence it is equality of placements. -/
+theorem samePlacement_iff (a b : Placement) : samePlacement a b = true ↔ a = b := by
+  rw [samePlacement, samePlacement_fields, samePlacementWith_all_eq]; simp
+
+/-- **Placement diff, for all histories.**  Starting from the state after `vaxis.New` and for every
+    sequence of draw / clear / render / refresh operations, the deletions and transmissions emitted
+    by each render are exactly what the specification demands for the frame history the operations
+    describe: a placement is transmitted iff the frame is a refresh or no identical placement was in
+    the previous frame's list, and a placement of the previous list is deleted iff the frame is a
+    refresh or it is absent now (`Spec.Images.expected`, `mustWrite`, `mustDelete`). -/
+theorem placement_diff (ops : List Op) :
+    outputs init ops = expected [] (framesOf true [] ops) := by
+  have hs : samePlacement = fun a b => a == b := by
+    funext a b; rw [samePlacement, samePlacement_fields, samePlacementWith_all_eq]
+  rw [outputs, hs]
+  exact outputsWith_eq_expected ops init
+
+/-- The same from any reachable state: the invariant is that `last` holds the previous frame. -/
+theorem placement_diff_from (s : State) (ops : List Op) :
+    outputs s ops = expected s.last (framesOf s.refresh s.next ops) := by
+  have hs : samePlacement = fun a b => a == b := by
+    funext a b; rw [samePlacement, samePlacement_fields, samePlacementWith_all_eq]
+  rw [outputs, hs]
+  exact outputsWith_eq_expected ops s
+
+/-- Reading of the spec: what is transmitted in a frame. -/
+theorem written_iff (prev : List Placement) (f : Frame) (p : Placement) :
+    p ∈ mustWrite prev f ↔ p ∈ f.placements ∧ (f.refresh = true ∨ p ∉ prev) := by
+  simp [mustWrite]
+
+/-- Reading of the spec: what is deleted in a frame. -/
+theorem deleted_iff (prev : List Placement) (f : Frame) (p : Placement) :
+    p ∈ mustDelete prev f ↔ p ∈ prev ∧ (f.refresh = true ∨ p ∉ f.placements) := by
+  simp [mustDelete]
+
+/-- Non-vacuity: keep, move, drop, then refresh (the first frame after start-up is a refresh). -/
+example :
+    let a : Placement := ⟨1, 0, 0, 2, 2⟩
+    let a' : Placement := ⟨1, 3, 0, 2, 2⟩
+    let b : Placement := ⟨2, 5, 5, 1, 1⟩
+    outputs init [.draw a, .draw b, .render,            -- first frame: both transmitted
+                  .clear, .draw a, .draw b, .render,    -- unchanged: nothing
+                  .clear, .draw a', .render,            -- a moved, b dropped
+                  .refresh]                             -- everything again
+      = [([], [a, b]), ([], []), ([a, b], [a']), ([a'], [a'])] := by decide
+
+end placements
 
 end VaxisModel.Props.C20
